@@ -50,6 +50,7 @@ func NewWithOptions(opts *Options) *MemFS {
 		dirMode:  fs.ModeDir,
 		fileMode: 0,
 		lastId:   new(uint64),
+		renameMu: new(verifRWMutex),
 		name:     opts.Name,
 	}
 
